@@ -25,7 +25,7 @@ PROPS = {
             "trusted_base": [ASTRO_TB]},
     "C07": {"lean_target": ["Props.C07", "Props.FnC07"], "gens": ["gen-box", "gen-civil"], "searches": ["search-C07"],
             "trusted_base": [ASTRO_TB, FLOAT_TB]},
-    "C08": {"lean_target": ["Props.C08"], "gens": ["gen-alm", "gen-ec", "gen-terms", "gen-week"], "searches": ["search-C08"],
+    "C08": {"lean_target": ["Props.C08", "Props.FnSC08"], "gens": ["gen-alm", "gen-ec", "gen-terms", "gen-week"], "searches": ["search-C08"],
             "trusted_base": [ASTRO_TB, STD_TB],
             "open_obligations": ["accessors outside the modelled set are covered by the reflection sweep of search-C08 only (counted in search_stats.methods)"]},
     "C09": {"lean_target": ["Props.C09"], "gens": [], "searches": ["search-C09"],
@@ -34,7 +34,7 @@ PROPS = {
     "C10": {"lean_target": ["Props.C10"], "gens": ["gen-bazi"], "searches": ["search-C10"],
             "trusted_base": [ASTRO_TB, "time.Now() is a parameter (endYear) of the model"],
             "open_obligations": ["completeness fails when a Jie instant lies inside the queried two-hour slot (known finding); completeness elsewhere is checked by search-C10, not proved"]},
-    "C11": {"lean_target": ["Props.C11", "Props.C18Reads"], "gens": ["gen-alm", "gen-ec", "gen-terms"], "searches": ["search-C11"],
+    "C11": {"lean_target": ["Props.C11", "Props.C18Reads", "Props.FnSC11"], "gens": ["gen-alm", "gen-ec", "gen-terms"], "searches": ["search-C11"],
             "trusted_base": [ASTRO_TB, STD_TB]},
     "C12": {"lean_target": ["Props.C12", "Props.FnC12"], "gens": ["gen-ec"], "searches": ["search-C12"],
             "trusted_base": [ASTRO_TB]},
@@ -46,13 +46,13 @@ PROPS = {
             "trusted_base": [FLOAT_TB]},
     "C16": {"lean_target": ["Props.C16", "Props.FnC16"], "gens": ["gen-terms", "gen-alm"], "searches": ["search-C16"],
             "trusted_base": [ASTRO_TB, STD_TB]},
-    "C17": {"lean_target": ["Props.C17", "Props.FnC17"], "gens": ["gen-alm", "gen-box"], "searches": ["search-C17"],
+    "C17": {"lean_target": ["Props.C17", "Props.FnC17", "Props.FnSC17"], "gens": ["gen-alm", "gen-box"], "searches": ["search-C17"],
             "trusted_base": [ASTRO_TB]},
-    "C18": {"lean_target": ["Props.C18", "Props.C18Reads"], "gens": ["gen-alm", "gen-ec"], "searches": ["search-C18"],
+    "C18": {"lean_target": ["Props.C18", "Props.C18Reads", "Props.FnSC18"], "gens": ["gen-alm", "gen-ec"], "searches": ["search-C18"],
             "trusted_base": [ASTRO_TB, STD_TB]},
-    "C19": {"lean_target": ["Props.C19"], "gens": ["gen-fmt", "gen-alm"], "searches": ["search-C19"],
+    "C19": {"lean_target": ["Props.C19", "Props.FnSC19"], "gens": ["gen-fmt", "gen-alm"], "searches": ["search-C19"],
             "trusted_base": [STD_TB]},
-    "C20": {"lean_target": ["Props.C20"], "gens": ["gen-sfest"], "searches": ["search-C20"],
+    "C20": {"lean_target": ["Props.C20", "Props.FnSC20"], "gens": ["gen-sfest"], "searches": ["search-C20"],
             "trusted_base": [STD_TB]},
 }
 for _p in PROPS.values():
